@@ -183,7 +183,7 @@ package pool
 //@ func NewPeerPool
 //@   ensures err == nil ==> result != nil && fresh(result) && result.nodeID == cfg.NodeID
 // the peer list is sorted and free of duplicates however the configuration lists the peers
-//@   ensures err == nil ==> forall i int {result.peerNodes[i]} :: 0 <= i && i + 1 < len(result.peerNodes) ==> result.peerNodes[i] < result.peerNodes[i+1]
+//@   ensures err == nil ==> forall i int {relidx} {result.peerNodes[i]} :: 0 <= i && i + 1 < len(result.peerNodes) ==> result.peerNodes[i] < result.peerNodes[i+1]
 // (with fix_3 the list additionally passes through slices.Compact: "the node's own id and every
 // configured peer are members" then needs two composed index maps and no longer discharges; it
 // is listed as undecided for the fixed code, and is confirmed by inspection_C17_NewPeerPool_duplicates.go)
